@@ -121,7 +121,11 @@ def _diagram_rule(rnd, ev, nodes, imps, acc):
         return
     base = rnd.choice(parents)
     kids = sorted(n.rsplit(".", 1)[1] for n in nodes if "." in n and n.rsplit(".", 1)[0] == base)
-    kids = [k for k in kids if k.isidentifier() and not k.startswith("__")]
+    import re as _re
+
+    # component names the diagram parser's name class can spell (identifiers with combining marks / U+00B7 are the
+    # known finding of C06 and are left to that check)
+    kids = [k for k in kids if k.isidentifier() and _re.fullmatch(r"\w+", k) and not k.startswith("__")]
     if len(kids) < 2:
         return
     comps = rnd.sample(kids, rnd.randint(2, min(5, len(kids))))
